@@ -50,6 +50,11 @@ def elem_ops(root):
         ops.append(q("S", c, *a))
         if i in unc:
             continue
+        if enc == "B" or i == 0:
+            # re-assigning the (same) formula discards every value of the cells, inputs included
+            src = spec_of(root)["spaces"]["S"]["cells"][c]
+            src = src["src"] if isinstance(src, dict) else src
+            ops.append({"op": "set_formula", "sp": "S", "c": c, "src": src})
         ops.append(set_input("S", c, a, 100 + i))
         ops.append(set_input("S", c, a, 200 + i))
         ops.append(cl("clear_at", "S", c, *a))
@@ -81,9 +86,17 @@ def build(root):
     return m, rm
 
 
-def snapshot(m):
+def snapshot(m, rm=None):
+    """Held elements; when the reference model is given, `is_input` is the REFERENCE's notion (assigned by the
+    user and not cleared since) and `impl_is_input` what the implementation says."""
     hs = held_elems(m)
-    return {h["elem"]: h for h in hs}
+    out = {h["elem"]: h for h in hs}
+    if rm is not None:
+        for e, h in out.items():
+            h["impl_is_input"] = h["is_input"]
+            sp = rm.space(h["inst"])
+            h["is_input"] = h["c"] in sp.cells and tuple(h["key"]) in sp.cells[h["c"]].inputs
+    return out
 
 
 def run_history(root, hist):
@@ -98,7 +111,7 @@ def run_history(root, hist):
     nontrivial = 0
     for idx, op in enumerate(hist):
         last = idx == len(hist) - 1
-        before = snapshot(m) if last else None
+        before = snapshot(m, rm) if last else None
         rt_before = RefTrees(rm) if last else None
         # closures before the edit (inputs cut the trees)
         deps = {}
@@ -117,8 +130,16 @@ def run_history(root, hist):
             O.apply_ref(rm, op)
         if not last:
             continue
-        after = snapshot(m)
+        after = snapshot(m, rm)
         k = op["op"]
+        if ob[0] == "ok":
+            # the implementation's input flag of every held element agrees with the reference
+            wrong = sorted(list(e) for e, h in after.items() if h["impl_is_input"] != h["is_input"])
+            if wrong:
+                bad("is-input", {"op": op, "elements": wrong,
+                                 "impl_says_input": [after[tuple(e)]["impl_is_input"] for e in wrong]},
+                    "is_input is True exactly for elements assigned by the user and not cleared since")
+                break
         if ob[0] != "ok":
             if k == "q":
                 bad("query-raises", {"op": op, "result": ob}, "a value")
@@ -162,7 +183,7 @@ def run_history(root, hist):
             edited = {elem_of(op)} & set(before)
         elif k == "clear":
             edited = {e for e, h in before.items() if e[0] == "S." + op["c"] and not h["is_input"]}
-        elif k == "clear_all":
+        elif k in ("clear_all", "set_formula"):
             edited = {e for e, h in before.items() if e[0] == "S." + op["c"]}
         discarded = {h for h, clo in deps.items() if clo & edited}
         if k == "set_input":
